@@ -113,7 +113,7 @@ func sameVal(a, b any) bool {
 // averages are the columns that are plain moving averages of the current bar's prices: they must
 // react to a change of the newest snapshot (a column plotted a day late does not).
 var averages = map[string]bool{"Fast": true, "Slow": true, "Medium": true, "Short": true, "Long": true, "KAMA": true, "SMA": true, "VWMA": true,
-	"VWAP": true, "Moving Average": true, "Weighted Close": true, "Jaw": true, "Teeth": true, "Lip": true, "Upper": true, "Middle": true, "Lower": true}
+	"VWAP": true, "Moving Average": true, "Weighted Close": true, "Jaw": true, "Teeth": true, "Lip": true, "Middle": true}
 
 var addRow = regexp.MustCompile(`(?s)data\.addRow\(\[(.*?)\]\);`)
 
@@ -264,29 +264,59 @@ func check(c Case) engine.Outcome {
 		}
 		o.Add("prefix_rows_compared", len(pre.dates))
 	}
-	// 4. alignment (ii): moving-average columns react to a change of the newest snapshot
+	// 4. alignment (ii): moving-average columns react to a change of the newest snapshot. Three
+	// different changes are tried and the column only fails if it ignores all of them (a single
+	// change can leave a value unchanged by coincidence; band columns such as Bollinger's Lower are
+	// not monotone in the close and are not probed at all).
 	if n > c.Tree.MaxWarm()+1 && lateKey == "" {
-		pb := c.Bars.Cut(n)
-		pb = gen.Bars{Class: pb.Class, Open: append([]float64{}, pb.Open...), High: append([]float64{}, pb.High...), Low: append([]float64{}, pb.Low...),
-			Close: append([]float64{}, pb.Close...), Volume: append([]float64{}, pb.Volume...), X: pb.X, Y: pb.Y}
 		last := n - 1
-		pb.Close[last] = pb.Close[last]*2 + 1
-		pb.High[last] = math.Max(pb.High[last], pb.Close[last])*2 + 1
-		pb.Volume[last] = pb.Volume[last]*3 + 7
-		pt := readReport(c.Tree.Build(), stub.Snapshots(pb))
-		if pt.err == "" {
+		var perturbed []table
+		for v := 0; v < 3; v++ {
+			pb := gen.Bars{Class: c.Bars.Class, Open: append([]float64{}, c.Bars.Open...), High: append([]float64{}, c.Bars.High...), Low: append([]float64{}, c.Bars.Low...),
+				Close: append([]float64{}, c.Bars.Close...), Volume: append([]float64{}, c.Bars.Volume...), X: c.Bars.X, Y: c.Bars.Y}
+			switch v {
+			case 0:
+				pb.Close[last] = pb.Close[last]*2 + 1
+			case 1:
+				pb.Close[last] = pb.Close[last]*3 + 2.3125
+			default:
+				pb.Close[last] = pb.Close[last] + 7.5625
+			}
+			pb.High[last] = math.Max(pb.High[last], pb.Close[last])*2 + 1
+			pb.Volume[last] = pb.Volume[last]*3 + 7
+			pt := readReport(c.Tree.Build(), stub.Snapshots(pb))
+			if pt.err != "" {
+				perturbed = nil
+				break
+			}
+			perturbed = append(perturbed, pt)
+		}
+		if len(perturbed) == 3 {
 			for ci, name := range tb.names {
 				base := strings.TrimSuffix(name, "/data")
 				rows := len(tb.dates)
-				if !averages[base] || rows == 0 || len(tb.cols[ci]) != rows || len(pt.cols[ci]) != rows || !tb.dates[rows-1].Equal(sn[last].Date) {
+				if !averages[base] || rows == 0 || len(tb.cols[ci]) != rows || !tb.dates[rows-1].Equal(sn[last].Date) {
 					continue
 				}
 				if f, ok := tb.cols[ci][rows-1].(float64); !ok || math.IsNaN(f) || math.IsInf(f, 0) {
 					continue
 				}
+				reacted, usable := false, true
+				for _, pt := range perturbed {
+					if len(pt.cols) <= ci || len(pt.cols[ci]) != rows {
+						usable = false
+						break
+					}
+					if !sameVal(tb.cols[ci][rows-1], pt.cols[ci][rows-1]) {
+						reacted = true
+					}
+				}
+				if !usable {
+					continue
+				}
 				o.Add("newest_bar_sensitivity_probes", 1)
-				if sameVal(tb.cols[ci][rows-1], pt.cols[ci][rows-1]) {
-					o.Failf("%s: column %q in the row of the newest snapshot (%d) does not react to a change of that snapshot (%v): it is plotted after the date it was computed for", c.Tree, base, last, tb.cols[ci][rows-1])
+				if !reacted {
+					o.Failf("%s: column %q in the row of the newest snapshot (%d) does not react to any of three different changes of that snapshot (%v): it is plotted after the date it was computed for", c.Tree, base, last, tb.cols[ci][rows-1])
 					return o
 				}
 			}
